@@ -141,6 +141,16 @@ func verifIntrinsic(in *Interp, fn *ssa.Function, args []Value, caller *frame, s
 			}
 			return fmtFloatStr(bits), true
 		}
+	case "verifShared":
+		// run f watching for stores into state shared between evaluations (natively: f runs in two goroutines under the
+		// race detector)
+		in.watchShared++
+		in.sharedSeen = nil
+		func() {
+			defer func() { in.watchShared-- }()
+			in.call(args[0], nil, caller, site)
+		}()
+		return nil, true
 	case "verifAssume":
 		in.assume(toTerm(args[0], 0))
 		return nil, true
